@@ -37,6 +37,53 @@ _PAR = {}
 MAX_FAILED_PER_WORKER = int(__import__("os").environ.get("PYVC_MAX_FAILED", "3"))  # once a function has that many undischarged obligations the rest is not attempted
 
 
+_CONSTS_CACHE: Dict[int, frozenset] = {}
+
+
+def _class_consts(term) -> frozenset:
+    """names of the class constants C_<Name> occurring in a term (memoised on AST ids)"""
+    import z3
+
+    tid = term.get_id()
+    if tid in _CONSTS_CACHE:
+        return _CONSTS_CACHE[tid]
+    out = set()
+    seen = set()
+    stack = [term]
+    while stack:
+        t = stack.pop()
+        i = t.get_id()
+        if i in seen:
+            continue
+        seen.add(i)
+        if i in _CONSTS_CACHE:
+            out |= _CONSTS_CACHE[i]
+            continue
+        if z3.is_quantifier(t):
+            stack.append(t.body())
+        elif z3.is_app(t):
+            if t.num_args() == 0:
+                n = t.decl().name()
+                if n.startswith("C_"):
+                    out.add(n)
+            else:
+                stack.extend(t.children())
+    res = frozenset(out)
+    _CONSTS_CACHE[tid] = res
+    return res
+
+
+def _relevant_axioms(axioms, ob, tags):
+    """drop the refinement axioms of node classes the obligation does not mention"""
+    if not tags:
+        return axioms
+    mentioned = set()
+    for f in ob.pc:
+        mentioned |= _class_consts(f)
+    mentioned |= _class_consts(ob.goal)
+    return [a for a in axioms if a.get_id() not in tags or tags[a.get_id()] in mentioned]
+
+
 def _discharge_seq(axioms, items, tier, budget_ms):
     """items: [(index, obligation)]; after MAX_FAILED_PER_WORKER failures the remaining obligations
     are reported `skipped` (never counted as discharged): one failed obligation is enough to report the
@@ -46,7 +93,7 @@ def _discharge_seq(axioms, items, tier, budget_ms):
         if failed >= MAX_FAILED_PER_WORKER and ob.kind != "vacuity":
             out.append((idx, Verdict(ob.name, "skipped", "-", 0, ob.where, ob.kind, detail=f"not attempted: {failed} obligations of this function already failed")))
             continue
-        v = discharge(axioms, ob, tier, budget_ms)
+        v = discharge(_relevant_axioms(axioms, ob, _PAR.get("tags")), ob, tier, budget_ms)
         if v.status != "discharged" and ob.kind != "vacuity":
             failed += 1
         out.append((idx, v))
@@ -71,6 +118,15 @@ def _parallel_discharge(axioms, obs, tier, budget_ms, n):
 
 def verify(target: str, tier: str = "quick", budget_ms: int = 10000, shard=(0, 1)) -> FunctionReport:
     reg = load_all()
+    # determinism: the class axioms a proof sees must not depend on which functions this process
+    # verified before (worker processes are reused): restart from the classes named at import time
+    from . import theory as _T
+
+    cl = _T.classes()
+    if not hasattr(cl, "base_used"):
+        cl.base_used = set(cl.used)
+    cl.used = set(cl.base_used)
+    cl.version += 1
     c = reg.contract_for(target)
     rep = FunctionReport(target, list(getattr(c, "props", [])))
     t0 = time.time()
@@ -83,6 +139,7 @@ def verify(target: str, tier: str = "quick", budget_ms: int = 10000, shard=(0, 1
         ex = Executor(c, reg)
         obs = ex.run()
         axioms = ex.axioms()
+        _PAR["tags"] = dict(getattr(ex, "class_axiom_of", {}) or {})
         budget_ms = int(budget_ms * float(getattr(c, "budget_factor", 1)))
         t_sym = time.time()
         rep.symexec_ms = int((t_sym - t0) * 1000)
